@@ -530,6 +530,31 @@ func runC04(c *Ctx) {
 		c.Check(nodeHasCall(val.Decl.Body, true, calleeIs(info, pu+"ValidTreePath")) != nil, r3, val.Name()+":valid-tree-path", val.Decl.Pos(), "each name goes through pathutil.ValidTreePath")
 		c.Check(usesObj(info, val.Decl.Body, dup), r3, val.Name()+":duplicate", val.Decl.Pos(), "duplicate names are reported")
 		c.Check(usesObj(info, val.Decl.Body, notSorted), r3, val.Name()+":not-sorted-error", val.Decl.Pos(), "unsorted entries are reported")
+		// the branch that reports ErrEntriesNotSorted is taken on an ordering comparison of two strings (the sort names)
+		orderCmp := false
+		ast.Inspect(val.Decl.Body, func(n ast.Node) bool {
+			ifs, ok := n.(*ast.IfStmt)
+			if !ok || notSorted == nil || !usesObj(info, ifs.Body, notSorted) {
+				return true
+			}
+			ast.Inspect(ifs.Cond, func(m ast.Node) bool {
+				switch v := m.(type) {
+				case *ast.BinaryExpr:
+					if v.Op == token.GTR || v.Op == token.LSS || v.Op == token.GEQ || v.Op == token.LEQ {
+						if tx, ty := info.Types[v.X], info.Types[v.Y]; tx.Type != nil && ty.Type != nil && isStringish(tx.Type) && isStringish(ty.Type) {
+							orderCmp = true
+						}
+					}
+				case *ast.CallExpr:
+					if fn := Callee(info, v); fn != nil && fn.Name() == "Compare" {
+						orderCmp = true
+					}
+				}
+				return true
+			})
+			return true
+		})
+		c.Check(orderCmp, r3, val.Name()+":sort-order-comparison", val.Decl.Pos(), "ErrEntriesNotSorted is reported on an ordering comparison (<, >, Compare) of the two sort names, not on equality")
 		// same sort-name function in Validate and Decode
 		dec := p.Func(objShort + ".(*Tree).Decode")
 		sortName := p.Func(objShort + ".treeEntrySortName")
